@@ -118,7 +118,14 @@ func init() {
 				return in.ufHash(a[1].(Str))
 			}
 			h := blake2bLib.Sum256([]byte(str))
-			in.ctx.hashApps = append(in.ctx.hashApps, hashApp{a[1].(Str), BVConst(256, new(big.Int).SetBytes(h[:]))})
+			hc := BVConst(256, new(big.Int).SetBytes(h[:]))
+			// the natively computed digest takes part in the injectivity axioms against every earlier (symbolic) application
+			for _, prev := range in.ctx.hashApps {
+				if !prev.out.IsConst() {
+					in.ctx.add(Eq(strEq(prev.arg, a[1].(Str)), BVCmp("=", prev.out, hc)))
+				}
+			}
+			in.ctx.hashApps = append(in.ctx.hashApps, hashApp{a[1].(Str), hc})
 			out := make([]Value, 32)
 			for i := range out {
 				out[i] = BVConstU(8, uint64(h[i]))
